@@ -294,6 +294,21 @@ theorem buildState_ext_kinds {sd : SchemaDoc} {st : LState} (h : buildState sd =
         | some e0 => simp only [hx] at this ⊢; simp [this]
         | none => rfl
 
+/-- a document the loader accepts gives every operation a root type at most once (no hypothesis) -/
+theorem load_rootsOnce {sd : SchemaDoc} {s : Schema} (h : load sd = .ok s) : Spec.rootOperationTypesOnce sd = true := by
+  obtain ⟨st0, r0, d0, r1', d1', _, _, h0, h1, _, _, _⟩ := load_ok_inv h
+  simp only [Spec.rootOperationTypesOnce, List.all_cons, List.all_nil, Bool.and_true, Bool.and_eq_true,
+    decide_eq_true_eq, opCount_eq, List.flatMap_append, opCount_append]
+  have key : ∀ o, isRootOp o = true →
+      opCount o (sd.schema.flatMap (·.opTypes)) + opCount o (sd.schemaExt.flatMap (·.opTypes)) ≤ 1 := by
+    intro o ho
+    have A := applySchemaDefs_once h0 ho
+    have B := applySchemaDefs_once h1 ho
+    rw [noRoots_rootSet] at A
+    have := rootSet_le r0 o
+    omega
+  exact ⟨key opQuery (by decide), key opMutation (by decide), key opSubscription (by decide)⟩
+
 /-- the clauses of `Spec.WellFormed` that every document accepted by the loader satisfies -/
 structure SoundClauses (sd : SchemaDoc) : Prop where
   uniqueTypeNames : Spec.uniqueTypeNames sd = true
@@ -385,16 +400,6 @@ theorem load_sound {sd : SchemaDoc} {s : Schema} (h : load sd = .ok s)
       rw [reserved_eq]
       exact kindSpecific_enumValueNames (hD d hd).kindSpecific hk v hv
     · left; simp [hk]
-  · simp only [Spec.rootOperationTypesOnce, List.all_cons, List.all_nil, Bool.and_true, Bool.and_eq_true,
-      decide_eq_true_eq, opCount_eq, List.flatMap_append, opCount_append]
-    have key : ∀ o, isRootOp o = true →
-        opCount o (sd.schema.flatMap (·.opTypes)) + opCount o (sd.schemaExt.flatMap (·.opTypes)) ≤ 1 := by
-      intro o ho
-      have A := applySchemaDefs_once h0 ho
-      have B := applySchemaDefs_once h1 ho
-      rw [noRoots_rootSet] at A
-      have := rootSet_le r0 o
-      omega
-    exact ⟨key opQuery (by decide), key opMutation (by decide), key opSubscription (by decide)⟩
+  · exact load_rootsOnce h
 
 end Gql.Load
